@@ -187,9 +187,18 @@ class Direct:
                 c.internal.append((type(e).__name__, " ".join(t), nm))
                 return "internal:" + nm
         k = t[0]
+        if k == "tcpup":
+            if self.open or c.tcp or not c.svc.started:
+                return "skip"
+            c.tcp = True
+            for d in c.svc.when_connected:
+                if not d.called:
+                    d.callback(None)
+            return "ok"
         if k == "open":
             if self.open or not c.svc.started:
                 return "skip"
+            c.tcp = False
             self.open = True
             c.conn = object()
             for d in c.svc.when_connected:
@@ -205,6 +214,7 @@ class Direct:
         if k == "wsfail":
             if self.open or not c.svc.started:
                 return "skip"
+            c.tcp = False
             return guard(lambda: rc.ws_close(False, 1006, "handshake failed"))
         if k == "failinitial":
             fired = False
@@ -224,6 +234,9 @@ class Direct:
                 self.open = False
                 c.conn = None
                 r = guard(lambda: rc.ws_close(True, 1000, "stopped"))
+            elif c.tcp:
+                r = guard(lambda: rc.ws_close(False, 1006, "stopped during handshake"))
+                c.tcp = False
             r2 = guard(lambda: d.callback(None))
             return r2 if r2 != "ok" else r
         if not self.open:
